@@ -113,6 +113,23 @@ Theorem C11_LARGE_order_free : forall ns ns' n, Permutation ns ns' ->
   end.
 Proof. exact LARGE_order_free. Qed.
 
+(* MODE is a most frequent item; LARGE the n-th largest; HARMEAN and SLOPE the textbook formulas *)
+Theorem C11_MODE_is_most_frequent : forall args m, numeric_args args -> fn_MODE args = AOk m ->
+  In m (items_of args) /\ forall x, In x (items_of args) -> (count_eq x (items_of args) <= count_eq m (items_of args))%nat.
+Proof. exact MODE_is_most_frequent. Qed.
+Theorem C11_LARGE_is_nth_largest : forall ns n r, large_items ns n = AOk r ->
+  (Z.to_nat n <= cnt_ge (num_q r) ns)%nat /\ (length ns - Z.to_nat n + 1 <= cnt_le (num_q r) ns)%nat /\ (1 <= n <= Z.of_nat (length ns))%Z.
+Proof. exact LARGE_is_nth_largest. Qed.
+Theorem C11_HARMEAN_definition : forall args, numeric_args args -> (2 <= length (items_of args))%nat ->
+  Forall (fun n => (0 < num_q n)%Q) (items_of args) ->
+  fn_HARMEAN args = AOk (NF (qlen (items_of args) / qsum (map Qinv (qs (items_of args))))%Q).
+Proof. exact HARMEAN_definition. Qed.
+Theorem C11_SLOPE_definition : forall ys xs, length ys = length xs -> ys <> [] ->
+  let n := qlen ys in let sx := qsum (qs xs) in let sy := qsum (qs ys) in
+  let sxx := qsum (map (fun x => (x * x)%Q) (qs xs)) in let sxy := qsum (map (fun p => (fst p * snd p)%Q) (combine (qs xs) (qs ys))) in
+  fn_SLOPE_lists ys xs = if (Qnum (n * sxx - sx * sx)%Q =? 0)%Z then AErr EDIV0 else AOk (NF ((n * sxy - sx * sy) / (n * sxx - sx * sx))%Q).
+Proof. exact SLOPE_definition. Qed.
+
 Print Assumptions C11_regroup_invariant.
 Print Assumptions C11_SUM.
 Print Assumptions C11_AVERAGE.
@@ -126,3 +143,5 @@ Print Assumptions C11_SUMIF_COUNTIF.
 Print Assumptions C11_IFS_row_selected.
 Print Assumptions C11_MEDIAN_order_free.
 Print Assumptions C11_LARGE_order_free.
+Print Assumptions C11_MODE_is_most_frequent.
+Print Assumptions C11_LARGE_is_nth_largest.
